@@ -8,6 +8,8 @@ history; the real Worker objects are tied to the model by running both on every
 short history and on seeded long ones.
 '''
 import itertools
+import json
+import os
 import random
 
 from vlib import core
@@ -25,6 +27,26 @@ FP = [('Python/dawgie/db/shelve/comms.py',
         'Worker._lock_db', 'Worker._unlock_db', 'Worker._send']),
       ('Python/dawgie/context.py', ['lock_db', 'unlock_db'])]
 EV = {'A': 'Acquire', 'P': 'Poll', 'R': 'Release', 'D': 'Drop', 'T': 'Timer'}
+
+
+FP_FILE = os.path.join(core.VERIF, 'corpus', 'C13', 'fingerprints.json')
+
+
+def fingerprints():
+    fps = {}
+    for path, names in FP:
+        fps.update({path.split('/')[-1] + ':' + k: v for k, v in core.fingerprint(path, names).items()})
+    return fps
+
+
+def expected_fingerprints():
+    """reference fingerprints of the functions Lock.v was written against
+    (committed; regenerate with `python3 props/C13.py --write-fingerprints`;
+    never written by a check run)"""
+    try:
+        return json.load(open(FP_FILE))
+    except (OSError, ValueError):
+        return {}
 
 
 def histories(ctx):
@@ -187,10 +209,17 @@ def run(ctx):
         'not covered: blocking client side (comms.acquire / comms.release recv loops), the 3 s '
         'period, _do_copy thread, lockview bookkeeping (task_engine)',
     )
-    fps = {}
-    for path, names in FP:
-        fps.update(core.fingerprint(path, names))
+    fps = fingerprints()
     ctx.note('fingerprints', fps)
+    expect = expected_fingerprints()
+    changed = sorted(k for k in set(fps) | set(expect) if fps.get(k) != expect.get(k))
+    ctx.note('escalated_by_fingerprint', bool(changed))
+    ctx.note('changed_fingerprints', changed)
+    if changed and ctx.quick:
+        # a modelled function was edited: not a verdict, but the correspondence
+        # and the oracle now run at the thorough depth (DESIGN 5.2)
+        ctx.log('fingerprint changed (%s): thorough depth' % ', '.join(changed))
+        ctx.quick = False
     if ctx.replay:
         import json
         rp = json.load(open(ctx.replay))
@@ -234,3 +263,11 @@ def run(ctx):
     if not r['ok']:
         ctx.broken('theorem/file %s' % r['failing'], r['log'],
                    {'source': 'proof', 'theorem': r['failing']})
+
+
+if __name__ == '__main__':
+    import sys
+    if sys.argv[1:] == ['--write-fingerprints']:
+        os.makedirs(os.path.dirname(FP_FILE), exist_ok=True)
+        json.dump(fingerprints(), open(FP_FILE, 'w'), indent=1, sort_keys=True)
+        print('wrote', FP_FILE)
